@@ -348,6 +348,7 @@ func checkO7(c *Ctx, r *Report) {
 }
 
 func checkF15(c *Ctx, r *Report) {
+	r.Rules = append(r.Rules, "F15-once no field is expanded twice on one path", "first-D8-order expansion precedes the defaults (rule of C14)")
 	docKeys, err := documentedKeys(c.RepoDir, "This will expand any env var")
 	if err != nil {
 		r.Unresolved("www/docs/configuration.md", err.Error())
@@ -641,6 +642,52 @@ func checkF15(c *Ctx, r *Report) {
 			})
 		}
 		r.Floor("F15-self", nSelf, 12)
+	}
+	// every field is expanded once: a second pass over an already expanded
+	// value resolves what the first pass produced ("$$X" becomes "$X" and then
+	// the value of X; a value that itself contains "$" is expanded again)
+	{
+		ev := expansionStoreEvents(c)
+		var paths []string
+		for p := range ev {
+			paths = append(paths, p)
+		}
+		sort.Strings(paths)
+		for _, p := range paths {
+			twice := ""
+			pos := c.instrPos(ev[p][0])
+			for i := 0; i < len(ev[p]) && twice == ""; i++ {
+				for j := i + 1; j < len(ev[p]); j++ {
+					a, b := ev[p][i], ev[p][j]
+					if a == b {
+						continue
+					}
+					if a.Parent() != b.Parent() || a.Block() == b.Block() || a.Block().Dominates(b.Block()) || b.Block().Dominates(a.Block()) {
+						twice = c.instrPos(a) + " and " + c.instrPos(b)
+						pos = c.instrPos(b)
+						break
+					}
+				}
+			}
+			r.Check(twice == "", "F15-once", "expanded once: "+p, pos,
+				"the field is written by the expansion at "+twice+" on one path: the second pass expands the result of the first (an escaped \"$$\" or a value containing \"$\" is resolved twice)")
+		}
+		r.Floor("F15-once", len(paths), 20)
+	}
+	// a reference behaves like its value only if it is expanded before the
+	// defaults (and the semver split in them) look at the field (rule of C14)
+	if wd := c.Func("", "WithDefaults"); wd != nil {
+		tmpO := newReport("tmp")
+		checkParseOrder(c, tmpO, wd)
+		nO := 0
+		for _, o := range tmpO.Obls {
+			if o.Rule == "D8-order" {
+				o.Rule = "first-D8-order"
+				r.Obls = append(r.Obls, o)
+				nO++
+			}
+		}
+		r.Floor("first-D8-order", nO, 1)
 	}
 	// the list helper: trims and drops empties
 	checkListHelper(c, r, expFns)
@@ -1294,6 +1341,60 @@ func expansionStorePaths(c *Ctx) map[string]ssa.Instruction {
 				}
 				if pre, r2 := addrPath(cs.Common().Args[idx]); r2 != nil && pre != "" && types.Identical(r2.Type(), cfgPtr) {
 					out[pre+"."+p] = st
+				}
+			}
+		})
+	}
+	return out
+}
+
+// expansionStoreEvents: for every field path the expansion family assigns, the
+// places (a store in a function working on the configuration itself, or the
+// call handing part of the configuration to a helper that stores) where that
+// happens.
+func expansionStoreEvents(c *Ctx) map[string][]ssa.Instruction {
+	cfgPtr := types.NewPointer(c.NamedType("", "Config"))
+	pa := newProv(c)
+	out := map[string][]ssa.Instruction{}
+	for _, fn := range expansionFamily(c) {
+		forEachInstr(fn, func(in ssa.Instruction) {
+			st, ok := in.(*ssa.Store)
+			if !ok {
+				return
+			}
+			p, root := addrPath(st.Addr)
+			if root == nil || p == "" {
+				return
+			}
+			derived := false
+			for _, a := range pa.Of(st.Val).list() {
+				if (strings.HasPrefix(a, "Info.") || strings.HasPrefix(a, "Overridables.") || strings.HasPrefix(a, "Content.")) && !strings.HasSuffix(a, ".envMappingFunc") {
+					derived = true
+				}
+			}
+			if !derived {
+				return
+			}
+			if types.Identical(root.Type(), cfgPtr) {
+				out[p] = append(out[p], st)
+				return
+			}
+			prm, isPrm := root.(*ssa.Parameter)
+			if !isPrm {
+				return
+			}
+			idx := -1
+			for i, q := range fn.Params {
+				if q == prm {
+					idx = i
+				}
+			}
+			for _, cs := range pa.callSites(fn) {
+				if idx < 0 || idx >= len(cs.Common().Args) {
+					continue
+				}
+				if pre, r2 := addrPath(cs.Common().Args[idx]); r2 != nil && pre != "" && types.Identical(r2.Type(), cfgPtr) {
+					out[pre+"."+p] = append(out[pre+"."+p], cs)
 				}
 			}
 		})
